@@ -9,3 +9,4 @@ pub mod keymodel;
 pub mod fuzzglue;
 pub mod fuzzdecode;
 pub mod collide;
+pub mod iterproto;
